@@ -126,6 +126,11 @@ type LoopParams struct {
 	Failover bool `json:"failover"`
 	// Rebalance adds a real Rebalance() (save, close, re-open from the store) to the alphabet instead
 	Rebalance bool `json:"rebalance"`
+	// SkipUntil: dcp.listener.skipUntil lies one hour ahead of the server clock: every document the library
+	// writes itself is "older" (skipped by that filter as well), user documents carry a later time stamp
+	SkipUntil bool `json:"skip_until"`
+	// ReopenFault adds "transient end whose first re-open attempt is rejected" to the alphabet
+	ReopenFault bool `json:"reopen_fault"`
 }
 
 func init() {
@@ -156,6 +161,8 @@ func init() {
 				{Scenario: "pipe", Params: mustJSON(PipeParams{Mode: "gen", Alphabet: []string{"M", "Mres", "Mtxn", "Dres", "Minfix"}, Depth: 3, Ops: []string{"deliver0", "deliver1", "ackold"}, MetaBucket: true}), Bound: 0, Shards: 4, Note: "reserved / transaction keys with the checkpoints in a second bucket"},
 				{Scenario: "c14_loop", Params: mustJSON(LoopParams{Depth: d, Rebalance: true}), Bound: 0, Shards: 8, Note: "alphabet extended by a real Rebalance()"},
 				{Scenario: "c14_loop", Params: mustJSON(LoopParams{Depth: d, Failover: true}), Bound: 0, Shards: 8, Note: "alphabet extended by a fail-over without rollback (transient end, re-open under a new vbUUID)"},
+				{Scenario: "c14_loop", Params: mustJSON(LoopParams{Depth: d, SkipUntil: true}), Bound: 0, Shards: 8, Note: "skipUntil one hour ahead of the server clock: the library's own documents are also 'old'"},
+				{Scenario: "c14_loop", Params: mustJSON(LoopParams{Depth: d, ReopenFault: true}), Bound: 0, Shards: 8, Note: "alphabet extended by a transient end whose first re-open attempt is rejected"},
 				{Scenario: "c14_loop", Params: mustJSON(LoopParams{Sched: true}), Bound: b, Shards: 8, Note: "fixed history deliver,ack,commit,tick,tick over all schedules within the bound"},
 			}
 		},
@@ -166,6 +173,16 @@ func loopMain(p LoopParams) {
 	resetGlobals()
 	o := EnvOpts{Vbs: 2, CheckpointType: "auto", CheckpointInterval: 10e9, WrapMeta: true, MembershipType: "couchbase"}
 	o.MembershipType = "static"
+	userMut := mut
+	if p.SkipUntil {
+		t := time.Unix(1_700_000_000, 0).Add(time.Hour)
+		o.SkipUntil = &t
+		userMut = func(seq uint64, key string) gocbcore.SimPacket {
+			pk := mut(seq, key)
+			pk.Cas = uint64(t.Add(time.Hour).UnixNano()) + seq
+			return pk
+		}
+	}
 	c := NewCluster(&o)
 	c.MetaLoop = true
 	e := NewEnv(c, o)
@@ -211,7 +228,7 @@ func loopMain(p LoopParams) {
 			vrt.Window(op >= 3)
 		} else {
 			nops := 5
-			if p.Failover || p.Rebalance {
+			if p.Failover || p.Rebalance || p.ReopenFault {
 				nops = 6
 			}
 			op = vrt.Choose(nops, true, "loop-op")
@@ -221,12 +238,12 @@ func loopMain(p LoopParams) {
 		switch op {
 		case 0: // a user document arrives on vb0
 			s := nextSeq(0)
-			c.Append(0, marker(s, s), mut(s, fmt.Sprintf("user%d", s)))
+			c.Append(0, marker(s, s), userMut(s, fmt.Sprintf("user%d", s)))
 			userDelivered++
 			hist = append(hist, "deliver0")
 		case 1: // a user document arrives on vb1
 			s := nextSeq(1)
-			c.Append(1, marker(s, s), mut(s, fmt.Sprintf("user%d", s)))
+			c.Append(1, marker(s, s), userMut(s, fmt.Sprintf("user%d", s)))
 			userDelivered++
 			hist = append(hist, "deliver1")
 		case 2: // acknowledge the oldest unacknowledged event
@@ -257,6 +274,15 @@ func loopMain(p LoopParams) {
 				vrt.Sleep(o.RebalanceDelay + time.Second)
 				vrt.Quiesce()
 				hist = append(hist, "rebalance")
+				break
+			}
+			if p.ReopenFault {
+				// a transient end of vb1 whose first re-open attempt the server rejects (the second succeeds)
+				c.Vb[1].Opens = append(c.Vb[1].Opens, gocbcore.SimOpen{Kind: "err", Err: gocbcore.ErrTemporaryFailure})
+				c.EndStream(1, gocbcore.ErrSocketClosed)
+				vrt.Sleep(3e9)
+				vrt.Quiesce()
+				hist = append(hist, "end1+failed-reopen")
 				break
 			}
 			// fail-over without rollback: both vBuckets go on under a new vbUUID after a transient end
@@ -316,6 +342,9 @@ func loopMain(p LoopParams) {
 			if d.Vb == vb && d.Acked && d.Seq > want {
 				want = d.Seq
 			}
+		}
+		if p.SkipUntil {
+			continue // (whether a reserved key that the skipUntil filter removes moves the position is left open)
 		}
 		if tr != want {
 			vrt.Failf("vb%d tracked=%d, want %d (furthest acknowledged or absorbed event) after %v", vb, tr, want, hist)
